@@ -251,9 +251,10 @@ Definition synopsis_sub (c : mcmd) : list inline :=
 
 Definition visible (a : marg) : bool := negb (a_hide a).
 
-(** The positionals the second loop of [synopsis] iterates over.  The unrepaired code iterates
-    [cmd.get_positionals()] without the [is_hide_set] filter (defect I2, see docs/notes/C19.md). *)
-Definition synopsis_positionals (c : mcmd) : list marg := filter is_positional (c_args c).
+(** The positionals the second loop of [synopsis] iterates over:
+    [cmd.get_positionals().filter(|i| !i.is_hide_set())] (the filter was added by the repair of
+    defect I2, see docs/notes/C19.md). *)
+Definition synopsis_positionals (c : mcmd) : list marg := filter visible (filter is_positional (c_args c)).
 
 Definition synopsis (c : mcmd) : list line :=
   let name := match c_bin_name c with Some b => b | None => c_name c end in
@@ -408,9 +409,9 @@ Definition man_new (c : mcmd) : mman :=
      m_source := c_name c ++ [32] ++ unwrap_or_default (c_version c);
      m_manu := m_manual |}.
 
-(** [control_arg]: what is put into a control line for author-supplied text.  The unrepaired code
-    passes the string through unchanged (defect I, see docs/notes/C19.md). *)
-Definition control_arg (s : bytes) : bytes := s.
+(** fn control_arg: author-supplied text placed into a control line has its line breaks replaced by a
+    space (added by the repair of defect I, see docs/notes/C19.md). *)
+Definition control_arg (s : bytes) : bytes := replace control_arg_rule s.
 
 Definition title_args (m : mman) : list bytes :=
   map control_arg [m_title m; m_sect m; m_dat m; m_source m; m_manu m].
